@@ -16,6 +16,7 @@ Definition resv (nl B : Z) (lbl : blocktype) (res : option provider) : Prop :=
   match lbl, res with
   | None, None => True
   | Some _, Some (PDyn d) => nl <= d < B
+  | Some _, Some (PLocal i) => i = 0 /\ 0 < B     (* the function's own label: RETURN_VALUE_LOCATION *)
   | _, _ => False
   end.
 Definition jt_ok (nl B : Z) (f : vframe) (j : jump_target) : Prop :=
@@ -45,7 +46,7 @@ Proof.
   intros (_ & _ & [(locs & res & -> & _)|(pos & -> & _)]); [left; exists locs, [], res; rewrite app_nil_r; auto|right; exists pos; auto].
 Qed.
 Lemma resv_mono nl B B' lbl res : B <= B' -> resv nl B lbl res -> resv nl B' lbl res.
-Proof. intros H. unfold resv. destruct lbl, res as [[d| |]|]; auto. lia. Qed.
+Proof. intros H. unfold resv. destruct lbl, res as [[d|i|]|]; auto; lia. Qed.
 Lemma frames_mono nl B B' ctrls bp : B <= B' -> Forall2 (frame_ok nl B) ctrls bp -> Forall2 (frame_ok nl B') ctrls bp.
 Proof.
   intros H F. induction F as [|f j ? ? Hf]; constructor; auto.
@@ -118,12 +119,21 @@ Proof.
   intros H E Ej Hn. destruct (frames_nth nl B ctrls bp k f H E) as [(locs & res & E1 & R)|(pos & E1 & L)]; auto.
   rewrite E1 in Ej. inversion Ej; subst j. destruct res; [contradiction|]. unfold resv in R. destruct (vf_label f); [contradiction|reflexivity].
 Qed.
-Lemma target_label_some nl B ctrls bp k f locs r : Forall2 (frame_ok nl B) ctrls bp -> nth_error ctrls k = Some f ->
-  nth_error bp k = Some (JUnknown locs (Some r)) -> exists t d, vf_label f = Some t /\ r = PDyn d /\ nl <= d < B.
+Lemma target_label_any nl B ctrls bp k f locs r : Forall2 (frame_ok nl B) ctrls bp -> nth_error ctrls k = Some f ->
+  nth_error bp k = Some (JUnknown locs (Some r)) ->
+  exists t, vf_label f = Some t /\ ((r = PLocal 0 /\ 0 < B) \/ exists d, r = PDyn d /\ nl <= d < B).
 Proof.
   intros H E Ej. destruct (frames_nth nl B ctrls bp k f H E) as [(l0 & res & E1 & R)|(pos & E1 & L)]; [|congruence].
   rewrite E1 in Ej. inversion Ej; subst. unfold resv in R. destruct (vf_label f) as [t|]; [|contradiction].
-  destruct r as [d| |]; try contradiction. exists t, d. auto.
+  exists t. split; [reflexivity|]. destruct r as [d|i|]; try contradiction.
+  - right. exists d. auto.
+  - left. destruct R as [-> R]. auto.
+Qed.
+Lemma target_label_some nl B ctrls bp k f locs r : Forall2 (frame_ok nl B) ctrls bp -> nth_error ctrls k = Some f ->
+  nth_error bp k = Some (JUnknown locs (Some r)) -> r <> PLocal 0 -> exists t d, vf_label f = Some t /\ r = PDyn d /\ nl <= d < B.
+Proof.
+  intros H E Ej Hn. destruct (target_label_any nl B ctrls bp k f locs r H E Ej) as (t & Fl & [[-> _]|(d & -> & Hd)]); [contradiction|].
+  exists t, d. auto.
 Qed.
 
 Lemma reach_of_none v : v_unreach v = None -> v_reachability v = Reachable.
@@ -816,7 +826,7 @@ Lemma op_end_val nl cx s v v1 s1 locs d bp' :
 Proof.
   intros I Ebp Hv Hh. destruct I as [W B L Fr Md].
   destruct (v_ctrls v) as [|f r] eqn:Ec; [cbn [vstep] in Hv; unfold v_pop_ctrl in Hv; rewrite Ec in Hv; discriminate|].
-  destruct (target_label_some nl _ (f :: r) (c_bp s) O f locs (PDyn d) Fr eq_refl ltac:(rewrite Ebp; reflexivity))
+  destruct (target_label_some nl _ (f :: r) (c_bp s) O f locs (PDyn d) Fr eq_refl ltac:(rewrite Ebp; reflexivity) ltac:(discriminate))
     as (t0 & d0 & Fl & Ed & Hd). inversion Ed; subst d0; clear Ed.
   destruct (frames_cons _ _ _ _ _ Fr) as (Fh & Fe & j0 & bp0 & Ebp0 & Fr' & _). rewrite Fl in Fe.
   rewrite Ebp in Ebp0. inversion Ebp0; subst j0 bp0; clear Ebp0.
@@ -907,7 +917,7 @@ Lemma op_br_val nl cx s v v1 s1 k locs d :
 Proof.
   intros I Hu Enth Hv Hh. destruct I as [W B L Fr Md].
   cbn [vstep] in Hv. unfold label_type in Hv. destruct (nth_error (v_ctrls v) k) as [fk|] eqn:Ek; [|discriminate].
-  destruct (target_label_some _ _ _ _ k fk locs (PDyn d) Fr Ek Enth) as (t0 & d0 & Fl & Ed & Hd). inversion Ed; subst d0; clear Ed.
+  destruct (target_label_some _ _ _ _ k fk locs (PDyn d) Fr Ek Enth ltac:(discriminate)) as (t0 & d0 & Fl & Ed & Hd). inversion Ed; subst d0; clear Ed.
   rewrite Fl in Hv. cbn [bt_arity v_popn] in Hv.
   destruct (v_ctrls v) as [|f r] eqn:Ec; [unfold v_pop in Hv; rewrite Ec in Hv; discriminate|].
   assert (Hv1 : v1 = {| v_opds := vf_height f;
@@ -955,4 +965,398 @@ Proof.
     + right. cbn [v_unreach v_ctrls v_opds length]. splits; auto; try discriminate. f_equal. lia.
   - cbn. discriminate.
   - eapply (ext_add s s1 _ x A Bl); eauto.
+Qed.
+
+(** *** if with a result *)
+Lemma op_if_val nl cx s v v1 s1 t :
+  inv nl s v -> v_unreach v = None -> v_opds v = 1%nat ->
+  vstep cx v (OIf (Some t)) = Some v1 -> handle_opcode cx s v1 Reachable (OIf (Some t)) = Some s1 ->
+  exists p d, c_stack s = [p] /\ pwf nl s p /\ nl <= d < c_next s1
+  /\ c_out s1 = c_out s ++ IIf :: i32_bytes (provider_idx p) ++ u32_bytes 0
+  /\ c_bp s1 = JUnknown [cur_off s + 5] (Some (PDyn d)) :: c_bp s /\ c_stack s1 = [] /\ mono s s1
+  /\ c_last s1 = None /\ inv nl s1 v1 /\ v_unreach v1 = None /\ ext s s1.
+Proof.
+  intros I Hu H1 Hv Hh. destruct I as [W B L Fr Md].
+  cbn [vstep] in Hv. unfold v_pop in Hv. destruct (v_ctrls v) as [|f r] eqn:Ec; [discriminate|].
+  destruct (frames_cons _ _ _ _ _ Fr) as (Fh & _).
+  rewrite H1, Fh in Hv. cbn in Hv. inversion Hv; subst v1; clear Hv.
+  unfold handle_opcode in Hh. cbv beta iota zeta in Hh. apply checked in Hh. destruct Hh as [Hh Hl].
+  unfold push_consume in Hh.
+  assert (W0 : cwf nl (push_op (set_last s None) IIf)) by (eapply cwf_same; [|exact W]; unfold same_alloc; cbn; tauto).
+  destruct (consume (push_op (set_last s None) IIf)) as [[p s2]|] eqn:Econs; [|discriminate].
+  destruct (consume_spec nl _ p s2 Econs W0) as (Es & (O1 & O2 & O3) & En & Ecs & W2 & Pp).
+  cbn [push_op emit set_out set_last c_out c_bp c_stack c_next c_reuse c_consts c_last] in Es, O1, O2, O3, En, Ecs.
+  assert (Est : c_stack s2 = []).
+  { rewrite Es in L. rewrite H1 in L. cbn in L. destruct (c_stack s2); [reflexivity|cbn in L; lia]. }
+  assert (W3 : cwf nl (push_loc s2 p)) by (eapply cwf_same; [|exact W2]; unfold same_alloc; cbn; tauto).
+  destruct (dyn_get (push_loc s2 p)) as [d s3] eqn:Ed.
+  destruct (dyn_get_spec nl _ d s3 Ed W3) as (Hd & _ & _ & Es3 & (P1 & P2 & P3) & Pc & Pn & _ & W4).
+  cbn [push_loc emit set_out c_out c_bp c_stack c_next c_consts c_last] in Es3, P1, P2, P3, Pc, Pn.
+  assert (Eoff : cur_off s3 = cur_off s + 5).
+  { unfold cur_off. rewrite P1, O1, !app_length, i32_bytes_length. cbn [length]. lia. }
+  rewrite Eoff in Hh. injection Hh as Hs1.
+  assert (F1 : c_out s1 = c_out s ++ IIf :: i32_bytes (provider_idx p) ++ u32_bytes 0).
+  { subst s1. cbn. rewrite P1, O1, <- !app_assoc. reflexivity. }
+  assert (F2 : c_bp s1 = JUnknown [cur_off s + 5] (Some (PDyn d)) :: c_bp s) by (subst s1; cbn; rewrite P2, O2; reflexivity).
+  assert (F3 : c_stack s1 = []) by (subst s1; cbn; rewrite Es3; exact Est).
+  assert (F4 : c_next s1 = c_next s3) by (subst s1; reflexivity).
+  assert (F5 : c_consts s1 = c_consts s) by (subst s1; cbn; rewrite Pc; exact Ecs).
+  assert (F6 : c_last s1 = None) by (subst s1; cbn; rewrite P3; exact O3).
+  assert (F7 : c_reuse s1 = c_reuse s3) by (subst s1; reflexivity).
+  clear Hs1. exists p, d. rewrite Est in Es.
+  assert (Eco : cur_off s1 = cur_off s + 9).
+  { unfold cur_off. rewrite F1, !app_length. cbn [length]. rewrite app_length, i32_bytes_length, u32_bytes_length. lia. }
+  assert (Eal : all_locs (c_bp s1) = [] ++ (cur_off s + 5) :: all_locs (c_bp s)) by (rewrite F2; reflexivity).
+  assert (Hnx : c_next s <= c_next s1) by (rewrite F4; lia).
+  splits; auto; try (destruct p; cbn in Pp |- *; auto; fail); try lia.
+  - split; [exact Hnx|exists []; rewrite app_nil_r; exact F5].
+  - constructor.
+    + eapply cwf_same; [|exact W4]. unfold same_alloc. repeat split; congruence.
+    + eapply (bpwf_add s s1 (cur_off s + 5) [] (all_locs (c_bp s))); auto; try lia.
+    + rewrite F3. reflexivity.
+    + rewrite F2. constructor.
+      * repeat split; cbn; auto. left. exists [cur_off s + 5], (Some (PDyn d)). repeat split; try discriminate; cbn; lia.
+      * eapply frames_mono; [exact Hnx|exact Fr].
+    + left. exact Hu.
+  - eapply (ext_add s s1 _ (cur_off s + 5) [] (all_locs (c_bp s))); eauto; try lia.
+Qed.
+
+(** *** else of a value-typed if: the jump over the else branch is emitted after the result was moved *)
+Lemma else_tail sc first more res bp' s1 :
+  bpwf sc -> c_bp sc = JUnknown (first :: more) res :: bp' ->
+  s1 = back_patch (set_bp (emit (set_bp (push_op sc IBr) (JUnknown ((first :: more) ++ [cur_off sc + 1]) res :: bp')) (u32_bytes 0))
+                          (JUnknown (more ++ [cur_off sc + 1]) res :: bp')) first (cur_off sc + 5) ->
+  exists pre, length pre = length (c_out sc) /\ c_out s1 = pre ++ IBr :: u32_bytes 0
+    /\ c_bp s1 = JUnknown (more ++ [cur_off sc + 1]) res :: bp' /\ same_alloc sc s1 /\ c_last s1 = c_last sc
+    /\ cur_off s1 = cur_off sc + 5 /\ bpwf s1 /\ ext sc s1 /\ resolved s1 first (cur_off sc + 5).
+Proof.
+  intros B Ebp Hs1.
+  assert (Hall : all_locs (c_bp sc) = first :: more ++ all_locs bp') by (rewrite Ebp; reflexivity).
+  destruct (bw_range _ B first) as [Hf0 Hf1]; [rewrite Hall; left; reflexivity|].
+  assert (Hfl : (Z.to_nat first + 4 <= length (c_out sc))%nat) by (unfold cur_off in Hf1; lia).
+  set (pre := overwrite (c_out sc) (Z.to_nat first) (u32_bytes (cur_off sc + 5))).
+  assert (Lpre : length pre = length (c_out sc)) by (apply overwrite_length; rewrite u32_bytes_length; exact Hfl).
+  assert (F1 : c_out s1 = pre ++ IBr :: u32_bytes 0).
+  { subst s1. cbn [back_patch set_out set_bp emit push_op c_out]. rewrite <- app_assoc. cbn [app].
+    apply overwrite_app. rewrite u32_bytes_length. exact Hfl. }
+  assert (F2 : c_bp s1 = JUnknown (more ++ [cur_off sc + 1]) res :: bp') by (subst s1; reflexivity).
+  assert (F3 : same_alloc sc s1) by (subst s1; unfold same_alloc; cbn; auto).
+  assert (F6 : c_last s1 = c_last sc) by (subst s1; reflexivity).
+  clear Hs1.
+  assert (Ecur : cur_off s1 = cur_off sc + 5).
+  { unfold cur_off. rewrite F1, app_length, Lpre. cbn [length]. rewrite u32_bytes_length. lia. }
+  set (sm := set_bp sc (JUnknown more res :: bp')).
+  assert (Bm : bpwf sm).
+  { eapply (bpwf_remove sc sm first _ B Hall); [reflexivity|unfold sm, cur_off; cbn; lia]. }
+  assert (Hall1 : all_locs (c_bp s1) = more ++ (cur_off sc + 1) :: all_locs bp').
+  { rewrite F2. cbn [all_locs flat_map locs_of]. rewrite <- app_assoc. reflexivity. }
+  assert (B1 : bpwf s1).
+  { eapply (bpwf_add sm s1 (cur_off sc + 1) more (all_locs bp')); auto; try reflexivity.
+    - change (cur_off sm) with (cur_off sc). lia.
+    - lia.
+    - change (cur_off sm) with (cur_off sc). lia. }
+  assert (Hin1 : forall y, In y (all_locs (c_bp s1)) -> y = cur_off sc + 1 \/ (In y (all_locs (c_bp sc)) /\ y <> first)).
+  { intros y Hy. rewrite Hall1 in Hy. apply in_app_iff in Hy. cbn in Hy.
+    pose proof (bw_nodup _ B) as Hnd. rewrite Hall in Hnd. inversion Hnd as [|? ? Hnf _]; subst.
+    assert (In y (more ++ all_locs bp') -> In y (all_locs (c_bp sc)) /\ y <> first).
+    { intros Hy'. split; [rewrite Hall; right; exact Hy'|intros ->; contradiction]. }
+    destruct Hy as [Hy|[Hy|Hy]]; auto; right; apply H; apply in_or_app; auto. }
+  exists pre. splits; auto.
+  - split; [rewrite F1, app_length, Lpre; lia|]. intros p Hp Hn. split.
+    + rewrite F1, app_nth1 by lia. apply nth_overwrite_other. rewrite u32_bytes_length.
+      destruct (Nat.lt_ge_cases p (Z.to_nat first)) as [|Hge]; [left; exact H|right].
+      destruct (Nat.le_gt_cases (Z.to_nat first + 4) p) as [|Hlt]; [exact H|exfalso].
+      apply Hn. exists first. split; [rewrite Hall; left; reflexivity|unfold in_win; lia].
+    + intros (y & Hy & Hw). destruct (Hin1 y Hy) as [->|[Hy' _]].
+      * unfold in_win, cur_off in Hw. lia.
+      * apply Hn. exists y. auto.
+  - split; [exact Hf0|]. split; [rewrite F1, app_length; lia|]. intros j Hj. split.
+    + rewrite F1, app_nth1 by lia. unfold pre. rewrite nth_overwrite_in; rewrite ?u32_bytes_length; try lia. f_equal. lia.
+    + intros (y & Hy & Hw). destruct (Hin1 y Hy) as [->|[Hy' Hne']].
+      * unfold in_win, cur_off in *. lia.
+      * assert (Hfi : In first (all_locs (c_bp sc))) by (rewrite Hall; left; reflexivity).
+        destruct (bw_sep _ B first y Hfi Hy') as [E|Hs]; [congruence|]. unfold in_win in Hw. lia.
+Qed.
+
+Lemma op_else_val nl cx s v v1 s1 locs d bp' :
+  inv nl s v -> v_unreach v = None -> c_bp s = JUnknown locs (Some (PDyn d)) :: bp' ->
+  vstep cx v OElse = Some v1 -> handle_opcode cx s v1 Reachable OElse = Some s1 ->
+  exists first more p,
+    locs = first :: more /\ c_stack s = [p] /\ pwf nl s p /\ nl <= d < c_next s
+    /\ c_bp s1 = JUnknown (more ++ [cur_off s + Z.of_nat (length (copy_bytes p d)) + 1]) (Some (PDyn d)) :: bp'
+    /\ (forall j, (j < length (copy_bytes p d ++ [IBr]))%nat ->
+          nth (length (c_out s) + j) (c_out s1) 0%N = nth j (copy_bytes p d ++ [IBr]) 0%N /\ ~ pending s1 (length (c_out s) + j))
+    /\ c_stack s1 = [] /\ c_next s1 = c_next s /\ c_consts s1 = c_consts s /\ c_last s1 = None
+    /\ cur_off s1 = cur_off s + Z.of_nat (length (copy_bytes p d)) + 5
+    /\ ext s s1 /\ resolved s1 first (cur_off s1) /\ inv nl s1 v1 /\ v_unreach v1 = None.
+Proof.
+  intros I Hu Ebp Hv Hh. destruct I as [W B L Fr Md].
+  destruct (v_ctrls v) as [|f r] eqn:Ec; [cbn [vstep] in Hv; unfold v_pop_ctrl in Hv; rewrite Ec in Hv; discriminate|].
+  destruct (target_label_some nl _ (f :: r) (c_bp s) O f locs (PDyn d) Fr eq_refl ltac:(rewrite Ebp; reflexivity) ltac:(discriminate))
+    as (t0 & d0 & Fl & Ed & Hd). inversion Ed; subst d0; clear Ed.
+  destruct (frames_cons _ _ _ _ _ Fr) as (Fh & Fe & j0 & bp0 & Ebp0 & Fr' & Hjt). rewrite Fl in Fe.
+  rewrite Ebp in Ebp0. inversion Ebp0; subst j0 bp0; clear Ebp0.
+  unfold handle_opcode in Hh. cbv beta iota zeta in Hh. apply checked in Hh. destruct Hh as [Hh Hl].
+  unfold push_br_jump in Hh. cbn [set_last c_bp nth_error] in Hh. rewrite Ebp in Hh.
+  assert (W0 : cwf nl (set_last s None)) by (eapply cwf_same; [|exact W]; unfold same_alloc; cbn; tauto).
+  destruct (consume (set_last s None)) as [[p s2]|] eqn:Econs; [|discriminate].
+  destruct (consume_spec nl _ p s2 Econs W0) as (Es & (O1 & O2 & O3) & En & Ecs & W2 & Pp).
+  cbn [set_last c_out c_bp c_stack c_next c_reuse c_consts c_last] in Es, O1, O2, O3, En, Ecs.
+  assert (Hv1 : v1 = v_push_ctrl false (Some t0) (Some t0) {| v_opds := 0; v_ctrls := r; v_unreach := None |}
+                /\ v_opds v = 1%nat /\ vf_is_if f = true).
+  { cbn [vstep] in Hv. unfold v_pop_ctrl in Hv. rewrite Ec, Fe in Hv. cbn [bt_arity v_popn] in Hv.
+    unfold v_pop in Hv. rewrite Ec, Fh in Hv.
+    destruct (Nat.eqb_spec (v_opds v) 0) as [E0|Hne]; [exfalso; rewrite Es in L; cbn in L; lia|].
+    cbn [v_opds v_ctrls v_unreach] in Hv. destruct (Nat.eqb_spec (pred (v_opds v)) 0); [|discriminate]. rewrite Hu in Hv.
+    destruct (vf_is_if f); [|discriminate]. inversion Hv. rewrite e. repeat split; auto. lia. }
+  destruct Hv1 as (-> & H1 & Eif). clear Hv.
+  assert (Est : c_stack s2 = []).
+  { rewrite Es in L. rewrite H1 in L. cbn in L. destruct (c_stack s2); [reflexivity|cbn in L; lia]. }
+  assert (Hlocs : exists first more, locs = first :: more).
+  { destruct Hjt as [(l0 & r0 & E0 & Hne & _)|(pos & E0 & _)]; [|discriminate E0]. inversion E0; subst.
+    destruct l0 as [|a b]; [exfalso; apply (Hne Eif); reflexivity|eauto]. }
+  destruct Hlocs as (first & more & ->).
+  destruct (copy_if_needed_out s2 p d) as (C1 & C2 & (C3 & C4 & C5 & C6) & C7).
+  set (sc := copy_if_needed s2 p (PDyn d)) in *.
+  unfold insert_jump_location in Hh. change (c_bp (push_op sc IBr)) with (c_bp sc) in Hh. rewrite C2, O2, Ebp in Hh.
+  cbn [nth_error update_nth] in Hh.
+  assert (E1 : cur_off (push_op sc IBr) = cur_off sc + 1).
+  { unfold cur_off. cbn [push_op emit set_out c_out]. rewrite app_length. cbn [length]. lia. }
+  assert (E2 : forall A, cur_off (emit (set_bp (push_op sc IBr) A) (u32_bytes 0)) = cur_off sc + 5).
+  { intros A. unfold cur_off. cbn [emit set_out set_bp push_op c_out]. rewrite !app_length, u32_bytes_length. cbn [length]. lia. }
+  rewrite E1 in Hh. cbn [emit set_out set_bp c_bp app] in Hh.
+  assert (Hs1 : s1 = back_patch (set_bp (emit (set_bp (push_op sc IBr) (JUnknown ((first :: more) ++ [cur_off sc + 1]) (Some (PDyn d)) :: bp')) (u32_bytes 0))
+                          (JUnknown (more ++ [cur_off sc + 1]) (Some (PDyn d)) :: bp')) first (cur_off sc + 5)).
+  { rewrite <- (E2 (JUnknown ((first :: more) ++ [cur_off sc + 1]) (Some (PDyn d)) :: bp')). inversion Hh. reflexivity. }
+  clear Hh.
+  assert (Ebsc : c_bp sc = JUnknown (first :: more) (Some (PDyn d)) :: bp') by (rewrite C2, O2; exact Ebp).
+  assert (Eosc : c_out sc = c_out s ++ copy_bytes p d) by (rewrite C1, O1; reflexivity).
+  assert (Ecsc : cur_off sc = cur_off s + Z.of_nat (length (copy_bytes p d))).
+  { unfold cur_off. rewrite Eosc, app_length. lia. }
+  assert (Bsc : bpwf sc) by (eapply (bpwf_same_locs s); [exact B|rewrite Ebsc, Ebp; reflexivity|lia]).
+  assert (Xsc : ext s sc) by (eapply (ext_append s sc _ Eosc); rewrite Ebsc, Ebp; reflexivity).
+  destruct (else_tail sc first more (Some (PDyn d)) bp' s1 Bsc Ebsc Hs1) as (pre & Lp & F1 & F2 & (F3 & F4 & F5 & F6) & F7 & Ecur & B1 & X1 & Rs).
+  exists first, more, p. rewrite Est in Es.
+  split; [reflexivity|]. split; [exact Es|]. split; [destruct p; cbn in Pp |- *; auto|]. split; [exact Hd|].
+  split; [rewrite F2, Ecsc; reflexivity|]. split.
+  { intros j Hj. rewrite app_length in Hj. cbn [length] in Hj.
+    assert (Hpend1 : forall q, (length (c_out s) <= q)%nat -> ~ in_win (cur_off sc + 1) q -> ~ pending s1 q).
+    { intros q Hq Hw (y & Hy & Hwy). rewrite F2 in Hy. cbn [all_locs flat_map locs_of] in Hy. rewrite <- app_assoc in Hy.
+      apply in_app_iff in Hy. cbn in Hy.
+      assert (Hold : In y (all_locs (c_bp s)) -> False).
+      { intros Hin. destruct (bw_range _ B y Hin). unfold in_win, cur_off in *. lia. }
+      destruct Hy as [Hy|[<-|Hy]]; [apply Hold; rewrite Ebp; cbn; right; apply in_or_app; auto|contradiction|
+        apply Hold; rewrite Ebp; cbn; right; apply in_or_app; auto]. }
+    split; [|apply Hpend1; [lia|unfold in_win, cur_off in *; rewrite Eosc, app_length; lia]].
+    destruct (Nat.lt_ge_cases j (length (copy_bytes p d))) as [Hlt|Hge].
+    - destruct X1 as [_ X1].
+      assert (Hq : (length (c_out s) + j < length (c_out sc))%nat) by (rewrite Eosc, app_length; lia).
+      assert (Hnp : ~ pending sc (length (c_out s) + j)).
+      { intros (y & Hy & Hwy). rewrite Ebsc, <- Ebp in Hy. destruct (bw_range _ B y Hy). unfold in_win, cur_off in *. lia. }
+      destruct (X1 _ Hq Hnp) as [E _]. rewrite E, Eosc, app_nth2 by lia. rewrite app_nth1 by lia. f_equal. lia.
+    - assert (j = length (copy_bytes p d)) by lia. subst j. rewrite F1.
+      replace (length (c_out s) + length (copy_bytes p d))%nat with (length pre) by (rewrite Lp, Eosc, app_length; reflexivity).
+      rewrite app_nth2 by lia. rewrite Nat.sub_diag. rewrite app_nth2 by lia. rewrite Nat.sub_diag. reflexivity. }
+  split; [rewrite F3, C3; exact Est|]. split; [rewrite F4, C4; exact En|]. split; [rewrite F6, C6; exact Ecs|].
+  split; [rewrite F7, C7; exact O3|]. split; [rewrite Ecur, Ecsc; lia|].
+  split; [eapply ext_trans; eauto|]. split; [rewrite Ecur; exact Rs|]. split; [|reflexivity].
+  constructor; cbn [v_push_ctrl v_opds v_ctrls v_unreach]; auto.
+  - eapply cwf_same; [|exact W2]. unfold same_alloc. repeat split; congruence.
+  - rewrite F2, F4, C4, En. constructor; [|exact Fr']. repeat split; cbn; auto. left.
+    exists (more ++ [cur_off sc + 1]), (Some (PDyn d)). repeat split; try discriminate; cbn; lia.
+  - left. reflexivity.
+Qed.
+
+Definition copy_ret (p : provider) : list N :=
+  if provider_eqb p (PLocal 0) then [] else ICopy :: i32_bytes (provider_idx p) ++ i32_bytes 0.
+Lemma copy_if_needed_out_ret s p : c_out (copy_if_needed s p (PLocal 0)) = c_out s ++ copy_ret p
+  /\ c_bp (copy_if_needed s p (PLocal 0)) = c_bp s /\ same_alloc s (copy_if_needed s p (PLocal 0))
+  /\ c_last (copy_if_needed s p (PLocal 0)) = c_last s.
+Proof.
+  unfold copy_if_needed, copy_ret. destruct (provider_eqb p (PLocal 0)).
+  - rewrite app_nil_r. unfold same_alloc. repeat split; auto.
+  - cbn [push_loc push_op emit set_out c_out c_bp c_last provider_idx]. rewrite <- !app_assoc. unfold same_alloc. cbn. repeat split; auto.
+Qed.
+Lemma copy_ret_length p : length (copy_ret p) = if provider_eqb p (PLocal 0) then 0%nat else 9%nat.
+Proof. unfold copy_ret. destruct (provider_eqb p (PLocal 0)); [reflexivity|]. cbn [length]. rewrite app_length, !i32_bytes_length. reflexivity. Qed.
+
+(** br to the function's own label in a function with a result *)
+Lemma op_br_ret nl cx s v v1 s1 k locs :
+  inv nl s v -> v_unreach v = None -> nth_error (c_bp s) k = Some (JUnknown locs (Some (PLocal 0))) ->
+  vstep cx v (OBasic (BBr k)) = Some v1 -> handle_opcode cx s v1 Reachable (OBasic (BBr k)) = Some s1 ->
+  exists p rest, c_stack s = p :: rest /\ pwf nl s p
+  /\ c_out s1 = c_out s ++ copy_ret p ++ IBr :: u32_bytes 0
+  /\ c_bp s1 = update_nth (c_bp s) k (JUnknown (locs ++ [cur_off s + Z.of_nat (length (copy_ret p)) + 1]) (Some (PLocal 0)))
+  /\ c_stack s1 = [] /\ c_next s1 = c_next s /\ c_consts s1 = c_consts s /\ c_last s1 = None
+  /\ inv nl s1 v1 /\ v_unreach v1 <> None /\ ext s s1.
+Proof.
+  intros I Hu Enth Hv Hh. destruct I as [W B L Fr Md].
+  cbn [vstep] in Hv. unfold label_type in Hv. destruct (nth_error (v_ctrls v) k) as [fk|] eqn:Ek; [|discriminate].
+  destruct (target_label_any _ _ _ _ k fk locs (PLocal 0) Fr Ek Enth) as (t0 & Fl & _).
+  rewrite Fl in Hv. cbn [bt_arity v_popn] in Hv.
+  destruct (v_ctrls v) as [|f r] eqn:Ec; [unfold v_pop in Hv; rewrite Ec in Hv; discriminate|].
+  assert (Hv1 : v1 = {| v_opds := vf_height f;
+                        v_ctrls := {| vf_is_if := vf_is_if f; vf_label := vf_label f; vf_end := vf_end f;
+                                      vf_height := vf_height f; vf_unreachable := true |} :: r;
+                        v_unreach := Some (length r) |}).
+  { unfold v_pop in Hv. rewrite Ec in Hv.
+    destruct (v_opds v =? vf_height f)%nat; [destruct (vf_unreachable f); [|discriminate]|];
+      unfold v_mark_unreachable in Hv; cbn [v_ctrls v_unreach] in Hv; rewrite ?Ec, Hu in Hv; inversion Hv; reflexivity. }
+  subst v1. clear Hv. destruct (frames_cons _ _ _ _ _ Fr) as (Fh & _).
+  unfold handle_opcode in Hh. cbv beta iota zeta in Hh. apply checked in Hh. destruct Hh as [Hh Hl].
+  cbn [v_opds] in Hh, Hl.
+  unfold push_br_jump in Hh. cbn [set_last c_bp] in Hh. rewrite Enth in Hh.
+  assert (W0 : cwf nl (set_last s None)) by (eapply cwf_same; [|exact W]; unfold same_alloc; cbn; tauto).
+  destruct (consume (set_last s None)) as [[p s2]|] eqn:Econs; [|discriminate].
+  destruct (consume_spec nl _ p s2 Econs W0) as (Es & (O1 & O2 & O3) & En & Ecs & W2 & Pp).
+  cbn [set_last c_out c_bp c_stack c_next c_reuse c_consts c_last] in Es, O1, O2, O3, En, Ecs.
+  destruct (copy_if_needed_out_ret s2 p) as (C1 & C2 & (C3 & C4 & C5 & C6) & C7).
+  set (sc := copy_if_needed s2 p (PLocal 0)) in *.
+  unfold insert_jump_location in Hh. change (c_bp (push_op sc IBr)) with (c_bp sc) in Hh. rewrite C2, O2, Enth in Hh.
+  set (s3 := emit _ (u32_bytes 0)) in Hh.
+  assert (Wc : cwf nl sc) by (eapply cwf_same; [|exact W2]; unfold same_alloc; auto).
+  assert (W3 : cwf nl s3) by (eapply cwf_same; [|exact Wc]; unfold same_alloc; cbn; tauto).
+  unfold truncate in Hh.
+  destruct (truncate_n_spec nl _ s3 s1 Hh W3) as ((T1 & T2 & T3) & Tn & Tc & W1 & Ln).
+  set (x := cur_off s + Z.of_nat (length (copy_ret p)) + 1).
+  assert (S1 : c_out s3 = c_out s ++ copy_ret p ++ IBr :: u32_bytes 0).
+  { subst s3. cbn [emit set_out set_bp push_op c_out]. rewrite C1, O1, <- !app_assoc. reflexivity. }
+  assert (S2 : c_bp s3 = update_nth (c_bp s) k (JUnknown (locs ++ [x]) (Some (PLocal 0)))).
+  { subst s3. cbn [emit set_out set_bp c_bp push_op]. do 4 f_equal. unfold x, cur_off. cbn [c_out emit set_out push_op].
+    rewrite C1, O1, !app_length. cbn [length]. lia. }
+  assert (S3 : c_last s3 = None) by (subst s3; cbn; rewrite C7; exact O3).
+  assert (S4 : c_next s3 = c_next s) by (subst s3; cbn; rewrite C4; exact En).
+  assert (S5 : c_consts s3 = c_consts s) by (subst s3; cbn; rewrite C6; exact Ecs).
+  rewrite S1 in T1. rewrite S2 in T2. rewrite S3 in T3. rewrite S4 in Tn. rewrite S5 in Tc. clearbody s3.
+  assert (Est : c_stack s1 = []) by (destruct (c_stack s1); [reflexivity|cbn in Hl; rewrite Fh in Hl; discriminate]).
+  destruct (all_locs_update (c_bp s) k locs (Some (PLocal 0)) x Enth) as (A & Bl & EA & EB). rewrite <- T2 in EB.
+  assert (Ecur : cur_off s1 = x + 4).
+  { unfold cur_off, x. rewrite T1, !app_length. cbn [length]. rewrite u32_bytes_length. unfold cur_off. lia. }
+  assert (Hx : cur_off s <= x) by (unfold x; lia).
+  exists p, (c_stack s2). splits; auto; try lia; try (destruct p; cbn in Pp |- *; auto; fail).
+  - constructor; cbn [v_opds v_ctrls v_unreach]; auto.
+    + eapply (bpwf_add s s1 x A Bl); auto; lia.
+    + rewrite T2, Tn. apply frames_mark. eapply frames_update; eauto.
+    + right. cbn [v_unreach v_ctrls v_opds length]. splits; auto; try discriminate. f_equal. lia.
+  - cbn. discriminate.
+  - eapply (ext_add s s1 _ x A Bl); eauto.
+Qed.
+
+(** the final [end] of a function with a result, reached by fall-through: the result is moved to register 0 *)
+Lemma op_end_ret nl cx s v v1 s1 locs bp' :
+  inv nl s v -> v_unreach v = None -> c_bp s = JUnknown locs (Some (PLocal 0)) :: bp' ->
+  vstep cx v OEnd = Some v1 -> handle_opcode cx s v1 Reachable OEnd = Some s1 ->
+  exists p, c_stack s = [p] /\ pwf nl s p /\ c_bp s1 = bp' /\ c_next s1 = c_next s /\ c_consts s1 = c_consts s /\ ext s s1
+  /\ cur_off s1 = cur_off s + Z.of_nat (length (copy_ret p))
+  /\ (forall loc, In loc locs -> resolved s1 loc (cur_off s1))
+  /\ (forall j, (j < length (copy_ret p))%nat -> nth (length (c_out s) + j) (c_out s1) 0%N = nth j (copy_ret p) 0%N
+                                               /\ ~ pending s1 (length (c_out s) + j)).
+Proof.
+  intros I Hu Ebp Hv Hh. destruct I as [W B L Fr Md].
+  destruct (v_ctrls v) as [|f r] eqn:Ec; [cbn [vstep] in Hv; unfold v_pop_ctrl in Hv; rewrite Ec in Hv; discriminate|].
+  destruct (target_label_any nl _ (f :: r) (c_bp s) O f locs (PLocal 0) Fr eq_refl ltac:(rewrite Ebp; reflexivity)) as (t0 & Fl & _).
+  destruct (frames_cons _ _ _ _ _ Fr) as (Fh & Fe & _). rewrite Fl in Fe.
+  rewrite (handle_end_val_r cx s v1 locs (PLocal 0) bp' Ebp) in Hh.
+  assert (W0 : cwf nl (set_bp (set_last s None) bp')) by (eapply cwf_same; [|exact W]; unfold same_alloc; cbn; tauto).
+  destruct (consume (set_bp (set_last s None) bp')) as [[p s2]|] eqn:Econs; [|discriminate].
+  destruct (consume_spec nl _ p s2 Econs W0) as (Es & (O1 & O2 & O3) & En & Ecs & W2 & Pp).
+  cbn [set_bp set_last c_out c_bp c_stack c_next c_reuse c_consts c_last] in Es, O1, O2, O3, En, Ecs.
+  assert (H1 : v_opds v = 1%nat).
+  { cbn [vstep] in Hv. unfold v_pop_ctrl in Hv. rewrite Ec, Fe in Hv. cbn [bt_arity v_popn] in Hv.
+    unfold v_pop in Hv. rewrite Ec, Fh in Hv.
+    destruct (Nat.eqb_spec (v_opds v) 0) as [E0|Hne]; [exfalso; rewrite Es in L; cbn in L; lia|].
+    cbn [v_opds v_ctrls v_unreach] in Hv. destruct (Nat.eqb_spec (pred (v_opds v)) 0); [lia|discriminate]. }
+  assert (Est : c_stack s2 = []).
+  { rewrite Es in L. rewrite H1 in L. cbn in L. destruct (c_stack s2); [reflexivity|cbn in L; lia]. }
+  cbv zeta in Hh. apply checked2 in Hh. destruct Hh as [Hs1 _]. symmetry in Hs1.
+  destruct (copy_if_needed_out_ret s2 p) as (C1 & C2 & (C3 & C4 & C5 & C6) & C7).
+  set (sc := copy_if_needed s2 p (PLocal 0)) in *.
+  assert (T1 : c_bp (provide_existing sc (PLocal 0)) = bp') by (cbn; rewrite C2; exact O2).
+  assert (T2 : c_last (provide_existing sc (PLocal 0)) = None) by (cbn; rewrite C7; exact O3).
+  assert (T3 : c_out (provide_existing sc (PLocal 0)) = c_out s ++ copy_ret p) by (cbn; rewrite C1, O1; reflexivity).
+  destruct (end_val_tail s _ s1 locs (Some (PLocal 0)) bp' (copy_ret p) B Ebp T1 T2 T3 Hs1) as (A1 & A2 & A3 & A4 & A5 & A6 & A7 & A8 & A9 & A10 & A11).
+  exists p. rewrite Est in Es. splits; auto; try (destruct p; cbn in Pp |- *; auto; fail).
+  - rewrite A3. cbn. rewrite C4. exact En.
+  - rewrite A5. cbn. rewrite C6. exact Ecs.
+Qed.
+
+(** *** return with a value (function with a result) *)
+Lemma last_label_pos nl B ctrls bp t : Forall2 (frame_ok nl B) ctrls bp -> 0 <= nl ->
+  last (map (fun f => Some (vf_label f)) ctrls) None = Some (Some t) -> 0 < B.
+Proof.
+  induction 1 as [|f j r b Hf Hr IH]; intros Hnl Hl; [discriminate|].
+  destruct r as [|g r']; cbn [map last] in Hl.
+  - inversion Hl as [Fl]. destruct Hf as (_ & _ & [(locs & res & -> & _ & R)|(pos & _ & _ & L)]); [|congruence].
+    unfold resv in R. rewrite Fl in R. destruct res as [[d|i|]|]; try contradiction; lia.
+  - apply IH; auto.
+Qed.
+
+Lemma op_return_val nl cx s v v1 s1 t t' :
+  inv nl s v -> v_unreach v = None -> cx_return cx = Some t' ->
+  last (map (fun f => Some (vf_label f)) (v_ctrls v)) None = Some (Some t) ->
+  vstep cx v (OBasic BReturn) = Some v1 -> handle_opcode cx s v1 Reachable (OBasic BReturn) = Some s1 ->
+  exists p rest, c_stack s = p :: rest /\ pwf nl s p /\ 0 < c_next s
+  /\ c_out s1 = c_out s ++ copy_ret p ++ [IReturn] /\ c_bp s1 = c_bp s
+  /\ c_stack s1 = [] /\ c_next s1 = c_next s /\ c_consts s1 = c_consts s /\ c_last s1 = None
+  /\ inv nl s1 v1 /\ v_unreach v1 <> None /\ ext s s1.
+Proof.
+  intros I Hu Hret Hne Hv Hh. destruct I as [W B L Fr Md].
+  pose proof (last_label_pos _ _ _ _ _ Fr (proj1 (w_next _ _ W)) Hne) as Hpos.
+  cbn [vstep] in Hv. rewrite Hne in Hv. cbn [bt_arity v_popn] in Hv.
+  destruct (v_ctrls v) as [|f r] eqn:Ec; [unfold v_pop in Hv; rewrite Ec in Hv; discriminate|].
+  assert (Hv1 : v1 = {| v_opds := vf_height f;
+                        v_ctrls := {| vf_is_if := vf_is_if f; vf_label := vf_label f; vf_end := vf_end f;
+                                      vf_height := vf_height f; vf_unreachable := true |} :: r;
+                        v_unreach := Some (length r) |}).
+  { unfold v_pop in Hv. rewrite Ec in Hv.
+    destruct (v_opds v =? vf_height f)%nat; [destruct (vf_unreachable f); [|discriminate]|];
+      unfold v_mark_unreachable in Hv; cbn [v_ctrls v_unreach] in Hv; rewrite ?Ec, Hu in Hv; inversion Hv; reflexivity. }
+  subst v1. clear Hv.
+  unfold handle_opcode in Hh. cbv beta iota zeta in Hh. apply checked in Hh. destruct Hh as [Hh Hl].
+  rewrite Hret in Hh. cbn [v_opds] in Hh, Hl.
+  assert (W0 : cwf nl (set_last s None)) by (eapply cwf_same; [|exact W]; unfold same_alloc; cbn; tauto).
+  destruct (consume (set_last s None)) as [[p s2]|] eqn:Econs; [|discriminate].
+  destruct (consume_spec nl _ p s2 Econs W0) as (Es & (O1 & O2 & O3) & En & Ecs & W2 & Pp).
+  cbn [set_last c_out c_bp c_stack c_next c_reuse c_consts c_last] in Es, O1, O2, O3, En, Ecs.
+  unfold RETURN_VALUE_LOCATION in Hh.
+  destruct (copy_if_needed_out_ret s2 p) as (C1 & C2 & (C3 & C4 & C5 & C6) & C7).
+  set (sc := copy_if_needed s2 p (PLocal 0)) in *. unfold truncate in Hh.
+  set (s3 := push_op sc IReturn) in *.
+  assert (W3 : cwf nl s3) by (eapply cwf_same; [|exact W2]; unfold same_alloc; cbn; auto).
+  assert (S1 : c_out s3 = c_out s ++ copy_ret p ++ [IReturn]) by (subst s3; cbn; rewrite C1, O1, <- app_assoc; reflexivity).
+  assert (S2 : c_bp s3 = c_bp s) by (subst s3; cbn; rewrite C2; exact O2).
+  assert (S3 : c_last s3 = None) by (subst s3; cbn; rewrite C7; exact O3).
+  assert (S4 : c_next s3 = c_next s) by (subst s3; cbn; rewrite C4; exact En).
+  assert (S5 : c_consts s3 = c_consts s) by (subst s3; cbn; rewrite C6; exact Ecs).
+  destruct (terminated_state nl s v f r s3 s1 _ W B Fr Ec S1 S2 S3 S4 S5 W3 Hh Hl) as (A1 & A2 & A3 & A4 & A5 & A6 & A7 & A8).
+  exists p, (c_stack s2). splits; auto; try (destruct p; cbn in Pp |- *; auto; fail).
+  cbn. discriminate.
+Qed.
+
+(** the final [end] of a function with a result when the body ends with a jump: nothing is moved *)
+Lemma op_end_ret_term nl cx s v v1 s1 locs bp' :
+  inv nl s v -> v_unreach v <> None -> c_bp s = JUnknown locs (Some (PLocal 0)) :: bp' ->
+  vstep cx v OEnd = Some v1 -> handle_opcode cx s v1 (v_reachability v) OEnd = Some s1 ->
+  c_bp s1 = bp' /\ c_next s1 = c_next s /\ c_consts s1 = c_consts s /\ ext s s1
+  /\ cur_off s1 = cur_off s
+  /\ (forall loc, In loc locs -> resolved s1 loc (cur_off s1)).
+Proof.
+  intros I Hu Ebp Hv Hh. destruct I as [W B L Fr Md].
+  destruct Md as [Hm|(Hm & Hn & H0)]; [contradiction|].
+  destruct (v_ctrls v) as [|f r] eqn:Ec; [contradiction|].
+  destruct (target_label_any nl _ (f :: r) (c_bp s) O f locs (PLocal 0) Fr eq_refl ltac:(rewrite Ebp; reflexivity)) as (t0 & Fl & _).
+  destruct (frames_cons _ _ _ _ _ Fr) as (Fh & Fe & _). rewrite Fl in Fe.
+  assert (Hreach : v_reachability v = UnreachableInstruction) by (apply reach_term; [rewrite Ec; exact Hm|rewrite Ec; discriminate]).
+  rewrite Hreach in Hh.
+  assert (Hv1 : v_opds v1 = 1%nat).
+  { cbn [vstep] in Hv. unfold v_pop_ctrl in Hv. rewrite Ec, Fe in Hv. cbn [bt_arity v_popn] in Hv.
+    unfold v_pop in Hv. rewrite Ec, Fh in Hv. rewrite H0 in Hv. cbn [Nat.eqb] in Hv.
+    destruct (vf_unreachable f); [|discriminate]. rewrite H0 in Hv. cbn [Nat.eqb] in Hv.
+    cbn [bt_arity v_pushn v_push v_opds v_ctrls v_unreach] in Hv. inversion Hv. reflexivity. }
+  assert (Est : c_stack s = []) by (destruct (c_stack s); [reflexivity|cbn in L; lia]).
+  rewrite (handle_end_val_u cx s v1 locs (PLocal 0) bp' Ebp) in Hh by (rewrite Est, Hv1; cbn; discriminate).
+  cbv zeta in Hh. apply checked2 in Hh. destruct Hh as [Hs1 _]. symmetry in Hs1.
+  assert (T3 : c_out (provide_existing (set_bp (set_last s None) bp') (PLocal 0)) = c_out s ++ []) by (cbn; rewrite app_nil_r; reflexivity).
+  destruct (end_val_tail s (provide_existing (set_bp (set_last s None) bp') (PLocal 0)) s1 locs (Some (PLocal 0)) bp' [] B Ebp eq_refl eq_refl T3 Hs1) as (A1 & A2 & A3 & A4 & A5 & A6 & A7 & A8 & A9 & A10 & A11).
+  cbn [length] in A7. splits; auto. lia.
 Qed.
